@@ -562,6 +562,7 @@ func c18(r *engine.Run) {
 	addCases(cXor, nil, tiny, map[string][]byte{"right": []byte("pw"), "wrong": []byte("pw!"), "empty": {}})
 
 	partC := c18History(r, oc)
+	partS := c18Service(r, oc)
 	tick("b_generate", t0)
 	t1 := time.Now()
 	// reference expectations (parallel; scrypt with N ≤ 2^16 inside)
@@ -698,6 +699,7 @@ func c18(r *engine.Run) {
 		"worker_batches":             nb,
 		"phase_seconds":              phase,
 		"history_independence":       partC,
+		"through_the_wallet_service": partS,
 		"alphabet": map[string]interface{}{"wallet_kinds": len(kinds), "passwords": len(c18Passwords), "ciphers": 4, "scrypt_base_ciphertexts": len(sb), "xor_base_ciphertexts": len(xb),
 			"scrypt_meta_product": product, "scrypt_meta_single": single, "tiny_base64_strings": len(tiny)},
 	})
